@@ -376,6 +376,9 @@ class Ctx:
         return self.tier == "quick"
 
     def cleanup(self):
+        if os.environ.get("VERIF_KEEP_SCRATCH") == "1":     # debugging aid: keep the generated schemas and packages of this run
+            print(f"[{self.pid}] scratch kept: {self.scratch}", file=sys.stderr)
+            return
         shutil.rmtree(self.scratch, ignore_errors=True)
 
     # -- reporting
